@@ -1,0 +1,140 @@
+//go:build verif
+
+package aggsender
+
+// Hooks for the /verif check of property C18 (epoch notifier). Thin wrappers only: everything that
+// decides anything (NewEpochNotifierPerBlock/Validate, startInternal's initial status, step,
+// isNotificationRequired, Publish) is the real code.
+
+import (
+	"context"
+	"time"
+
+	"github.com/agglayer/aggkit/aggsender/types"
+)
+
+// VerifEpochObs is one published epoch event, attributed to the delivery that caused it.
+type VerifEpochObs struct {
+	Index   int    // index (0-based) of the delivered block during whose processing the event was published
+	Block   uint64 // that block number
+	Epoch   uint64 // EpochEvent.Epoch
+	Pending int64  // ExtraInfoEventEpoch.PendingBlocks
+}
+
+// VerifEpochStepObs is the result of one direct call of step.
+type VerifEpochStepObs struct {
+	LastBlockSeen   uint64
+	WaitingForEpoch uint64
+	Notified        bool
+	Epoch           uint64
+	Pending         int64
+}
+
+type verifNopLogger struct{}
+
+func (verifNopLogger) Panicf(string, ...interface{}) {}
+func (verifNopLogger) Fatalf(string, ...interface{}) {}
+func (verifNopLogger) Info(...interface{})           {}
+func (verifNopLogger) Infof(string, ...interface{})  {}
+func (verifNopLogger) Error(...interface{})          {}
+func (verifNopLogger) Errorf(string, ...interface{}) {}
+func (verifNopLogger) Warn(...interface{})           {}
+func (verifNopLogger) Warnf(string, ...interface{})  {}
+func (verifNopLogger) Debug(...interface{})          {}
+func (verifNopLogger) Debugf(string, ...interface{}) {}
+
+// verifEpochCtx is a context whose Done() is consulted by startInternal's select once per loop
+// iteration, i.e. after the previous delivery has been processed completely. Counting the calls gives a
+// race-free attribution of published events to deliveries (everything runs on the notifier goroutine).
+type verifEpochCtx struct {
+	done  chan struct{}
+	iters int
+}
+
+func (c *verifEpochCtx) Deadline() (time.Time, bool) { return time.Time{}, false }
+func (c *verifEpochCtx) Done() <-chan struct{}       { c.iters++; return c.done }
+func (c *verifEpochCtx) Err() error {
+	select {
+	case <-c.done:
+		return context.Canceled
+	default:
+		return nil
+	}
+}
+func (c *verifEpochCtx) Value(any) any { return nil }
+
+// verifEpochSink is a synchronous subscriber: Publish records the event on the caller's goroutine.
+type verifEpochSink struct {
+	ctx    *verifEpochCtx
+	blocks []uint64
+	got    []VerifEpochObs
+}
+
+func (s *verifEpochSink) Subscribe(string) <-chan types.EpochEvent { return nil }
+func (s *verifEpochSink) Publish(ev types.EpochEvent) {
+	o := VerifEpochObs{Index: s.ctx.iters - 1, Epoch: ev.Epoch, Pending: -1}
+	if o.Index >= 0 && o.Index < len(s.blocks) {
+		o.Block = s.blocks[o.Index]
+	}
+	if x, ok := ev.ExtraInfo.(*ExtraInfoEventEpoch); ok && x != nil {
+		o.Pending = int64(x.PendingBlocks)
+	}
+	s.got = append(s.got, o)
+}
+
+// VerifEpochRun builds the real notifier for (start, numBlocks, percent), runs the real startInternal loop
+// on its own goroutine, delivers `blocks` one by one through the new-block channel and returns every event
+// handed to the subscriber, in order. A config rejected by the real constructor is returned as error.
+func VerifEpochRun(start uint64, numBlocks, percent uint, blocks []uint64) ([]VerifEpochObs, error) {
+	ctx := &verifEpochCtx{done: make(chan struct{})}
+	sink := &verifEpochSink{ctx: ctx, blocks: blocks}
+	e, err := NewEpochNotifierPerBlock(nil, verifNopLogger{}, ConfigEpochNotifierPerBlock{
+		StartingEpochBlock:          start,
+		NumBlockPerEpoch:            numBlocks,
+		EpochNotificationPercentage: percent,
+	}, sink)
+	if err != nil {
+		return nil, err
+	}
+	ch := make(chan types.EventNewBlock) // unbuffered: a send completes only when the loop is back at its select
+	finished := make(chan struct{})
+	go func() {
+		defer close(finished)
+		e.startInternal(ctx, ch)
+	}()
+	for _, b := range blocks {
+		ch <- types.EventNewBlock{BlockNumber: b}
+	}
+	close(ctx.done) // the loop finishes the delivery in progress, then sees Done and returns
+	<-finished
+	return sink.got, nil
+}
+
+// VerifEpochSteps calls the real step directly, starting from an arbitrary internal status.
+func VerifEpochSteps(start uint64, numBlocks, percent uint, last, waiting uint64,
+	blocks []uint64) ([]VerifEpochStepObs, error) {
+	e, err := NewEpochNotifierPerBlock(nil, verifNopLogger{}, ConfigEpochNotifierPerBlock{
+		StartingEpochBlock:          start,
+		NumBlockPerEpoch:            numBlocks,
+		EpochNotificationPercentage: percent,
+	}, &verifEpochSink{ctx: &verifEpochCtx{}})
+	if err != nil {
+		return nil, err
+	}
+	st := internalStatus{lastBlockSeen: last, waitingForEpoch: waiting}
+	res := make([]VerifEpochStepObs, 0, len(blocks))
+	for _, b := range blocks {
+		var ev *types.EpochEvent
+		st, ev = e.step(st, types.EventNewBlock{BlockNumber: b})
+		o := VerifEpochStepObs{LastBlockSeen: st.lastBlockSeen, WaitingForEpoch: st.waitingForEpoch, Pending: -1}
+		if ev != nil {
+			o.Notified = true
+			o.Epoch = ev.Epoch
+			if x, ok := ev.ExtraInfo.(*ExtraInfoEventEpoch); ok && x != nil {
+				o.Pending = int64(x.PendingBlocks)
+			}
+		}
+		res = append(res, o)
+	}
+	return res, nil
+}
